@@ -215,6 +215,11 @@ class World:
         rng = self.rng
         c = [r for r in self.roots if not self.is_frozen(r)]
         if c and rng.random() < 0.35:
+            # items that come with a past (a key of their own, owned or constant, from an earlier life
+            # as a member) are the interesting ones to hand back to the library
+            keyed = [r for r in c if r.key is not None]
+            if keyed and rng.random() < 0.6:
+                return rng.choice(keyed)
             return rng.choice(c)
         if rng.random() < 0.75:
             return self.mk_scalar()
@@ -443,7 +448,7 @@ class World:
             if rng.random() < 0.25:
                 key = key.swapcase()
             alias = rep.key is not None and rng.random() < 0.3
-            if alias or (rep.key is not None and rng.random() < 0.25):
+            if alias or (rep.key is not None and rng.random() < (0.6 if rep.kconst else 0.25)):
                 key = rep.key         # the name the replacement already goes by (its own pointer, or an equal string)
             old = self.lookup(p, key, cs)
             if alias:
